@@ -1,0 +1,14 @@
+//! Verification hooks (C05): read access to the private parts of a `ConfusionMatrix`, so that a
+//! check need not parse its `Debug` output.  Compiled only with `--cfg linfa_verif`.
+use super::ConfusionMatrix;
+use ndarray::{Array1, Array2};
+
+/// the class labels, in row / column order
+pub fn cm_members<A>(cm: &ConfusionMatrix<A>) -> &Array1<A> {
+    &cm.members
+}
+
+/// the cell counts, row = predicted label, column = true label
+pub fn cm_cells<A>(cm: &ConfusionMatrix<A>) -> &Array2<f32> {
+    &cm.matrix
+}
